@@ -180,7 +180,7 @@ def decide(prop, mod, results, tier, seed, wall):
         "bounded_standins_note": "bounded stand-ins are never counted in obligations/discharged",
         "solver_seconds": round(solver_s, 3),
         "paths_explored": sum(r.get("paths", 0) for r in results),
-        "known_findings_hit": known_hits,
+        "known_findings_hit": known_hits, "violation_details": violations,
         "undecided": undecided,
         "samples": _samples(results),
         "evaluations": sum(r.get("paths", 0) for r in results),
@@ -196,7 +196,7 @@ def decide(prop, mod, results, tier, seed, wall):
             del cov["obligations"], cov["discharged"]
     ev = {"property_id": prop, "tier": tier, "seed": seed, "level": level, "coverage": cov,
           "assumptions": GLOBAL_ASSUMPTIONS + list(getattr(mod, "ASSUMPTIONS", [])),
-          "wall_s": round(wall, 2), "violations": violations}
+          "wall_s": round(wall, 2), "violations": len(violations)}
     return ev, lines, exit_code
 
 
